@@ -46,7 +46,7 @@ func IDs() []string {
 var commonScopes = map[string][]string{
 	"C01": {"services/attester", "strategies/attestationdata", "services/accountmanager"},
 	"C02": {"services/scheduler"},
-	"C03": {"services/controller", "services/chaintime", "services/scheduler"},
+	"C03": {"services/controller", "services/chaintime", "services/scheduler", "services/attester"},
 	"C04": {"services/attester"},
 	"C05": {"services/beaconblockproposer", "services/signer"},
 	"C06": {"services/signer"},
@@ -347,10 +347,76 @@ func Common(id string, p *core.Prog, r *core.Report) {
 					a = y.X
 				}
 			}
-			if prm, ok := a.(*ssa.Parameter); ok {
-				if _, isSlice := prm.Type().Underlying().(*types.Slice); isSlice {
+			if prm := passedParameter(a); prm != nil {
+				sl, isSlice := prm.Type().Underlying().(*types.Slice)
+				// a list of self-describing records (pointers to structs) is not one of several parallel arrays
+				if isSlice && a != ssa.Value(prm) {
+					if pt, ok := sl.Elem().Underlying().(*types.Pointer); ok {
+						if _, isStruct := pt.Elem().Underlying().(*types.Struct); isStruct {
+							isSlice = false
+						}
+					}
+				}
+				if isSlice {
 					ns++
 					r.Violate(id+".x", fmt.Sprintf("%s|sorts-parameter|%s", core.FnKey(f), prm.Name()), p.Pos(ci.Pos()), "the slice parameter "+prm.Name()+" is sorted in place: the caller's array — one of several parallel per-validator arrays — is reordered, so entry i no longer belongs to validator i")
+				}
+			}
+			// … nor is ONE of several slices that were filled side by side (appended to in the same block, one element
+			// each per trip) sorted on its own: entry i of the sorted slice no longer belongs to entry i of the others
+			if _, isSlice := a.Type().Underlying().(*types.Slice); isSlice {
+				var mine []*ssa.Call
+				partners := map[string]bool{}
+				core.EachInstr(f, func(in ssa.Instruction) {
+					c, ok := in.(*ssa.Call)
+					if !ok {
+						return
+					}
+					if b, ok := c.Call.Value.(*ssa.Builtin); !ok || b.Name() != "append" || len(c.Call.Args) == 0 {
+						return
+					}
+					if descendsFromSameSlice(a, c) {
+						mine = append(mine, c)
+					}
+				})
+				for _, m := range mine {
+					for _, in := range m.Block().Instrs {
+						c, ok := in.(*ssa.Call)
+						if !ok || c == m {
+							continue
+						}
+						if b, ok := c.Call.Value.(*ssa.Builtin); !ok || b.Name() != "append" || len(c.Call.Args) == 0 {
+							continue
+						}
+						if descendsFromSameSlice(a, c) {
+							continue
+						}
+						// the partner is still in use after the sort
+						name := ""
+						if phi, ok := c.Call.Args[0].(*ssa.Phi); ok {
+							name = phi.Comment
+						}
+						if ld, ok := c.Call.Args[0].(*ssa.UnOp); ok {
+							if al, ok := ld.X.(*ssa.Alloc); ok {
+								name = al.Comment
+							}
+						}
+						if name == "" {
+							name = core.SourceName(c)
+						}
+						if name != "" {
+							partners[name] = true
+						}
+					}
+				}
+				if len(partners) > 0 {
+					var names []string
+					for n := range partners {
+						names = append(names, n)
+					}
+					sort.Strings(names)
+					ns++
+					r.Violate(id+".x", fmt.Sprintf("%s|sorts-one-of-parallel-slices|%s", core.FnKey(f), strings.Join(names, ",")), p.Pos(ci.Pos()), "this slice was filled side by side with "+strings.Join(names, ", ")+" (one element each per trip of the same loop) and is sorted on its own: entry i of it no longer belongs to entry i of the others")
 				}
 			}
 		}
@@ -562,6 +628,7 @@ func Common(id string, p *core.Prog, r *core.Report) {
 	// options that set one field: the second silently overrides the first and its own field keeps the default); and
 	// the constructor takes a parameters field over into the service field of the same name as it is
 	checkWiring(id, p, r, fns)
+	checkLanguageSemantics(id, p, r, fns)
 
 	// a closure that is run later (scheduled, or started as a goroutine) from inside a loop does not share a variable
 	// that lives outside the loop and is assigned inside it: every closure would see the value of the last iteration
@@ -633,7 +700,7 @@ func Common(id string, p *core.Prog, r *core.Report) {
 // id, so that a change that breaks the shared mechanism is reported by every property that relies on it.
 var imports = map[string][]string{
 	"C03": {"C02.d", "C02.i", "C02.m", "C02.n"},
-	"C09": {"C11.i", "C16.i", "C10.n"},
+	"C09": {"C11.i", "C16.i", "C10.n", "C07.l"},
 	"C10": {"C12.j", "C11.n", "C11.a"},
 	"C11": {"C12.l", "C12.m", "C12.j", "C10.f", "C10.k", "C10.e"},
 	"C15": {"C17.i", "C13.c", "C17.h", "C03.t", "C03.v"},
@@ -897,4 +964,53 @@ func checkWiring(id string, p *core.Prog, r *core.Report, fns []*ssa.Function) {
 	if nCopy > 0 {
 		r.Count("service fields taken over from same-named parameters", nCopy)
 	}
+}
+
+// descendsFromSameSlice: the append call c extends the same slice variable that v is a state of (v and c are linked
+// through phis and appends).
+func descendsFromSameSlice(v ssa.Value, c *ssa.Call) bool {
+	roots := func(x ssa.Value) map[ssa.Value]bool {
+		out := map[ssa.Value]bool{}
+		seen := map[ssa.Value]bool{}
+		var walk func(y ssa.Value, depth int)
+		walk = func(y ssa.Value, depth int) {
+			if y == nil || seen[y] || depth > 16 {
+				return
+			}
+			seen[y] = true
+			switch z := y.(type) {
+			case *ssa.Phi:
+				for _, e := range z.Edges {
+					walk(e, depth+1)
+				}
+			case *ssa.UnOp:
+				// a variable kept in a cell (captured by a closure): the cell is the root
+				if al, ok := z.X.(*ssa.Alloc); ok && z.Op == token.MUL {
+					out[al] = true
+					return
+				}
+				out[y] = true
+			case *ssa.Call:
+				if b, ok := z.Call.Value.(*ssa.Builtin); ok && b.Name() == "append" && len(z.Call.Args) > 0 {
+					walk(z.Call.Args[0], depth+1)
+					return
+				}
+				out[y] = true
+			default:
+				out[y] = true
+			}
+		}
+		walk(x, 0)
+		return out
+	}
+	rv, rc := roots(v), roots(c)
+	for k := range rv {
+		if _, isConst := k.(*ssa.Const); isConst {
+			continue
+		}
+		if rc[k] {
+			return true
+		}
+	}
+	return false
 }
